@@ -49,6 +49,17 @@ func main() {
 			}()
 			fmt.Printf("%s %-6s %-60s key=%s lease=%v then=%v origin=%s if=%v leaderGuard=%v (%s) commit=%v\n", P.instrPos(s.Op), s.Kind, fnName(s.Fn), s.KeyAtoms, s.Lease, s.Then != nil, s.Origin, s.HasIf, g, why, s.Commit != nil)
 		}
+	case "idkind":
+		P, err := loadProg("/repo", false, nil)
+		if err != nil {
+			fmt.Println(err)
+			os.Exit(2)
+		}
+		ki := runKindInference(P)
+		fmt.Printf("%d functions, %d nodes, %d raw conflicts\n", ki.nFuncs, len(ki.nodes), len(ki.conflicts))
+		for _, c := range ki.report() {
+			fmt.Printf("%s in %s: %s (%s) vs %s (%s) at: %s\n", P.pos(c.Pos), fnName(c.Fn), c.A, c.SeedA, c.B, c.SeedB, c.Detail)
+		}
 	case "selftest":
 		os.Exit(cmdSelftest(os.Args[2:]))
 	default:
